@@ -67,6 +67,32 @@ prop("C06", "arbitrary broker bytes never crash the client", "exploration",
      assumptions=["only the malformed classes listed in the property are asserted to end the link (e.g. an over-long PUBACK body is not)",
                   "ill-formed UTF-8 and encoded surrogates in topics are 'don't care' (accepting or rejecting both pass)"])
 
+prop("C20", "private copies behind ServeMux / ServeAsync", "exploration",
+     "rapid-generated cases: 1..3 messages x 1..6 handlers (filter, in-place / append / reslice / topic / flags / id mutation) "
+     "dispatched through ServeMux, ServeAsync, ServeAsync{ServeMux} and ServeMux{ServeAsync...}; async handlers are held until the "
+     "dispatcher returned and the caller overwrote its own message. Oracle: each handler's deep snapshot on entry equals the "
+     "dispatched message in all six fields, the caller's message is unchanged after synchronous dispatch, no payload backing "
+     "array is shared; also run under the race detector. Non-trivial = >= 2 matching handlers with >= 1 in-place payload "
+     "mutation, or an async dispatch of a non-empty payload; distinct = FNV-64 of the case JSON.",
+     [dict(tests="^TestVerifC20_Copies$", checks_quick=20000, checks_thorough=200000, shards=6),
+      dict(tests="^TestVerifC20_Copies$", race=True, checks_quick=2000, checks_thorough=30000, shards=6)])
+
+prop("C15", "packet identifiers non-zero and unique among outstanding requests", "exploration",
+     "allocator: generated counter start values (biased to 0xFFF0..0x10010, 0xFFFFFFF0.., low 16 bits near wrap) x 1..16 "
+     "goroutines x K ids each (G*K <= 65535, sometimes a full cycle), plus five sequential full cycles of 65535 allocations; "
+     "wire: 1..16 concurrent Publish q1/q2 / Subscribe / Unsubscribe callers (some with caller-chosen ids) against a peer that "
+     "withholds every acknowledgement until all requests are on the wire, 1..3 rounds; wrap: one request held unacknowledged "
+     "while 65534 further requests complete. Oracle: ids non-zero and pairwise distinct among simultaneously outstanding "
+     "requests, caller-chosen id unchanged. Non-trivial = >= 2 goroutines/callers or the window crosses 0xFFFF->1; distinct = "
+     "FNV-64 of the case JSON.",
+     [dict(tests="^TestVerifC15_(Alloc|FullCycle)$", checks_quick=1500, checks_thorough=20000, shards=4),
+      dict(tests="^TestVerifC15_Alloc$", race=True, checks_quick=300, checks_thorough=3000, shards=4),
+      dict(tests="^TestVerifC15_Wire$", checks_quick=2500, checks_thorough=30000, shards=6),
+      dict(tests="^TestVerifC15_Wire$", race=True, checks_quick=300, checks_thorough=3000, shards=2),
+      dict(tests="^TestVerifC15_Wrap$", checks_quick=3, checks_thorough=12, shards=2)],
+     assumptions=["caller-chosen identifiers are distinct from each other and outside the allocator's upcoming window (caller's responsibility)",
+                  "known finding D12 (re-use at allocation distance >= 65535) is excluded by construction and reported as KNOWN-FINDING"])
+
 # ---------------------------------------------------------------------------------------------
 # texts for MANIFEST.json (tools/gen_manifest.py)
 
@@ -106,3 +132,17 @@ mtext("C06", "E1 reference codec + E5 scripted peer",
       "fuzzing in the thorough tier; shows crashes and missed rejections, cannot show their absence.",
       "process death is attributed to the case in flight (cur.json); 8 GB address-space cap turns absurd allocations into a visible failure",
       "DESIGN.md section 4 / C06")
+
+mtext("C20", "pure (handlers recording snapshots)",
+      "rapid property test with mutating handlers, oracle = entry snapshot equals original + pointer inequality of payload arrays; race detector for the async path",
+      "Generated sets of mutating handlers behind every dispatcher composition; sampling of inputs, with the schedule of async handlers "
+      "forced by a gate so that late cloning is visible.",
+      "handlers mutate only what they received; Go race detector for the asynchronous variants",
+      "DESIGN.md section 4 / C20")
+
+mtext("C15", "pure allocator + E5 scripted peer withholding acks",
+      "rapid property tests (generated start values, goroutine counts, request mixes) with a set-distinctness oracle; race detector variant",
+      "Sampling of start values / caller mixes with the oracle evaluated at a moment where all requests are provably outstanding; five "
+      "complete 65535-allocation cycles per run. Concurrency is sampled, not enumerated.",
+      "ids observed on the wire by the peer are the ids the client registered; D12 listed as known finding",
+      "DESIGN.md section 4 / C15")
